@@ -324,7 +324,17 @@ let () =
             else if not (converged si) then
               oracle "fixed_not_converged" (String.concat " | " (List.map (fun r -> dec_of_n r.self ^ ": " ^ str_ent r) si))
           end
-      | "noquiet" :: _ -> oracle "no_quiescence" "the notification-driven schedule did not come to rest within 20000 fetches"
+      | ("rf" | "rfre") as kind :: cs :: res :: rest ->
+          (* refresh_order_independent evaluated on the implementation: the proved result of refresh for these costs *)
+          incr nchecks;
+          let costs = List.map (fun c -> match String.split_on_char '=' c with
+                        | [h; v] -> (n_of_dec_raw h, n_of_dec_raw v) | _ -> failwith "rf cost") (items ',' cs) in
+          let (((l1, h1), l2), h2) = refresh_fold costs in
+          let m = String.concat "/" [dec_of_n_raw h1; dec_of_n_raw l1; dec_of_n_raw h2; dec_of_n_raw l2] in
+          if m <> res then oracle "refresh_not_two_least" (Printf.sprintf "costs=%s expected=%s implementation=%s" cs m res);
+          if kind = "rfre" && rest <> ["0"] then
+            oracle "refresh_unstable" (Printf.sprintf "re-delivery of an unchanged advertisement reported a change: costs=%s result=%s" cs res)
+      | "noquiet" :: n :: _ -> oracle "no_quiescence" ("the notification-driven schedule did not come to rest within " ^ n ^ " fetches")
       | ["phys"; i; nb] -> Hashtbl.replace phys (n_of_dec i) (parse_nb (split_field "nb=" nb))
       | ["chkphys"; _w] ->
           incr nchecks;
@@ -341,6 +351,7 @@ let () =
               oracle "table_ok_proto" (Printf.sprintf "router=%s physical=[%s] table=%s" (dec_of_n i) (show g)
                 (dashed ";" (List.map (fun (d, (c, h)) -> String.concat "/" [dec_of_n d; dec_of_n c; dec_of_n h]) tbl)))) g;
           Hashtbl.reset phys; Hashtbl.reset impl_nb; Hashtbl.reset impl_ent
+      | "overrun" :: n :: _ -> oracle "no_quiescence_proto" ("more than " ^ n ^ " Interests expressed in one case")
       | "stat" :: _ -> ()
       | ["end"] -> ()
       | "harnessfail" :: rest -> oracle "harness" (String.concat " " rest)
